@@ -97,6 +97,9 @@ def make_grammars(tier, seed):
     for _ in range(n):
         g = GR.random_grammar(rng)
         items.append(Item(g.shape, g.text(), g))
+    for _ in range(n // 6):
+        for g in (GR.first_chain_family(rng), GR.nullable_tail_family(rng), GR.late_lookahead_family(rng)):
+            items.append(Item(g.shape, g.text(), g))
     n2 = 150 if tier == "quick" else 2500
     extra = []
     for _ in range(n2):
